@@ -112,7 +112,7 @@ VARIANTS = [
     V( 'forward-open-keeps-proposed-id', DEVICE, "O_T.connection_ID = random.randint( 0, 2**32-1 )", "O_T.connection_ID	=  O_T.connection_ID or random.randint( 1, 2**32-1 )", fires=[ 'K-FORWARDS' ] ),
     V( 'listener-asks-peer-name', NETWORK, "thrd = None\n try:\n thrd = thread_factory(", "thrd			= None\n        peer			= conn.getpeername()\n        try:\n            thrd		= thread_factory(", fires=[ 'E-CONTAIN' ] ),
     V( 'unknown-attribute-preset-range-error', LOGIX, "assert attribute is not None, \\\n", "data.status = 0xFF\n            data.status_ext = {'size': 1, 'data': [ 0x2105 ]}\n            assert attribute is not None, \\\n", fires=[ 'S-STATUS' ] ),
-    V( 'resolve-extends-by-one-segment-only', DEVICE, "if longer is not None and any( s == longer or s.startswith( longer + u'.' ) for s in symbol ):", "if longer is not None and longer in symbol:", fires=[ 'D-PATHSTOP' ], why='defect DA' ),
+    V( 'resolve-extends-by-one-segment-only', DEVICE, "if longer is not None and any( s == longer or s.startswith( longer + u'.' ) for s in list( symbol )): # (snapshot: Tags may be added meanwhile)", "if longer is not None and longer in symbol:", fires=[ 'D-PATHSTOP' ], why='defect DA' ),
     V( 'gal-slot-zero-is-an-attribute', DEVICE, "if not isinstance( self.attribute.get( str(a_id) ), Attribute ): # (number 0 is the Object)", "if str(a_id) not in self.attribute:", fires=[ 'L-GALREPLY' ], why='defect DB' ),
     V( 'forget-requests', 'remote/plc.py', "if address in self._data: # forgetting what was never requested must not request it\n self._data[address] = None", "self._data[address]		= None", fires=[ 'M-FORGET' ], why='defect DC' ),
     V( 'forget-by-membership-first', 'remote/plc.py', "if address in self._data: # forgetting what was never requested must not request it\n self._data[address] = None", "if address not in self._data:\n            return\n        self._data[address]	= None", silent=[ 'M-FORGET' ] ),
@@ -184,6 +184,8 @@ VARIANTS = [
     V( 'member-handler-logs-service-by-get', DEVICE, "self, exc, enip_format( r ))\n r.pop( self.SV_COD_CTX, None )", "self, exc, r.get( 'service' ))\n                        r.pop( self.SV_COD_CTX, None )", silent=[ 'P-EACH' ] ),
     V( 'forward-close-collects-from-live-table', DEVICE, "for k in list( self.forwards.keys() ): # we'll be mutating the dict...\n if (addr[0],addr[1]) != k[:2]:\n continue", "for k in [ k_ for k_ in self.forwards if (addr[0],addr[1]) == k_[:2] ]:\n            if (addr[0],addr[1]) != k[:2]:\n                continue", fires=[ 'W-ITERDEL' ] ),
     V( 'forward-close-over-live-view', DEVICE, "for k in list( self.forwards.keys() ): # we'll be mutating the dict...", "for k in self.forwards.keys():", fires=[ 'W-ITERDEL' ] ),
+    V( 'resolve-walks-live-symbol', DEVICE, "for s in list( symbol )): # (snapshot: Tags may be added meanwhile)", "for s in symbol ):", fires=[ 'W-ITERDEL' ], why='defect DD' ),
+    V( 'resolve-walks-tuple-snapshot', DEVICE, "for s in list( symbol )): # (snapshot: Tags may be added meanwhile)", "for s in tuple( symbol )):", silent=[ 'W-ITERDEL' ] ),
     V( 'forward-close-over-tuple-snapshot', DEVICE, "for k in list( self.forwards.keys() ): # we'll be mutating the dict...", "for k in tuple( self.forwards ):", silent=[ 'W-ITERDEL' ] ),
     V( 'struct-read-complete-by-short-window', LOGIX, "completed = end == endactual and offremains+max_size >= len( input )", "completed		= end == endactual and len( trimmed ) < max_size", fires=[ 'F-STATUS' ] ),
     V( 'struct-read-complete-by-window-end', LOGIX, "completed = end == endactual and offremains+max_size >= len( input )", "completed		= end == endactual and not input[offremains+max_size:]", silent=[ 'F-STATUS' ] ),
@@ -464,8 +466,8 @@ VARIANTS = [
        "if any( key in term and result[key] is not None and result[key] != term[key] for key in result ):\n                raise AssertionError( 'Failed to override' )\n            continue", silent=[ 'D-PATHSTOP' ] ),
     V( 'pathstop-ignores-explicit-attribute', DEVICE, "or ( attribute is not True #   or a default attribute is supplied\n and 'attribute' not in term ) #     and the term didn't contain a supplied one", "or attribute is not True", fires=[ 'D-PATHSTOP' ] ),
     V( 'pathstop-skips-symbolic', DEVICE, "if ( 'symbolic' not in term # A symbolic term names a Tag: resolve it, or fail\n and result['class'] is not None", "if ( result['class'] is not None", fires=[ 'D-PATHSTOP' ], why='defect AC' ),
-    V( 'resolve-first-hit-wins', DEVICE, "if longer is not None and any( s == longer or s.startswith( longer + u'.' ) for s in symbol ):", "if False:", fires=[ 'D-PATHSTOP' ], why='defect CU' ),
-    V( 'resolve-longest-name-looked-up-once', DEVICE, "if longer is not None and any( s == longer or s.startswith( longer + u'.' ) for s in symbol ):", "if longer is not None and [ s for s in symbol if s == longer or s.startswith( longer + u'.' ) ]:", silent=[ 'D-PATHSTOP' ] ),
+    V( 'resolve-first-hit-wins', DEVICE, "if longer is not None and any( s == longer or s.startswith( longer + u'.' ) for s in list( symbol )): # (snapshot: Tags may be added meanwhile)", "if False:", fires=[ 'D-PATHSTOP' ], why='defect CU' ),
+    V( 'resolve-longest-name-looked-up-once', DEVICE, "if longer is not None and any( s == longer or s.startswith( longer + u'.' ) for s in list( symbol )): # (snapshot: Tags may be added meanwhile)", "if longer is not None and [ s for s in list( symbol ) if s == longer or s.startswith( longer + u'.' ) ]:", silent=[ 'D-PATHSTOP' ] ),
     V( 'pathstop-break-hides-later-symbolic', DEVICE, "% ( result, term, path['segment'] )\n continue", "% ( result, term, path['segment'] )\n            break", fires=[ 'D-PATHSTOP' ], why='defect AC' ),
     V( 'retag-old-attribute-stored-back', LOGIX, "instance.attribute[str(att)] \\\n = val['attribute']", "instance.attribute[str(att)] = attribute", fires=[ 'T-RETAG' ], why='defect AD' ),
     V( 'retag-dotted-form', LOGIX, "instance.attribute[str(att)] \\\n = val['attribute']", "instance.attribute[str(att)] = val.attribute", silent=[ 'T-RETAG' ] ),
